@@ -6,7 +6,7 @@ encoded exactly.  Enum members stored in such lists are represented by integer c
 """
 from fractions import Fraction
 import z3
-from .vals import SV, Opt, Vec, Obj, SList, Forall, Builtin, Unsupported, fresh, EnumVal
+from .vals import SV, Opt, Vec, Obj, SList, Forall, Builtin, Unsupported, fresh, EnumVal, EnumSym
 from .ops import term, boolterm, mk
 from . import models
 
@@ -17,6 +17,8 @@ def code(v):
     """element -> z3 Int term"""
     if isinstance(v, EnumVal):
         return z3.IntVal(v.code)
+    if isinstance(v, EnumSym):
+        return v.t
     if isinstance(v, bool):
         return z3.IntVal(int(v))
     if isinstance(v, int):
@@ -28,27 +30,48 @@ def code(v):
     raise Unsupported(f'list element of kind {type(v).__name__} in a symbolic-length list')
 
 
+def elem(s, t):
+    """value of an element term: enum lists hand out symbolic enum members"""
+    if getattr(s, 'enum', None):
+        return EnumSym(s.enum, z3.simplify(t))
+    return mk(t)
+
+
 def at(s, i):
     """element closure application -> z3 Int term"""
     return s.fn(i)
 
 
-def new(it, n, fn, label=None):
+def new(it, n, fn, label=None, enum=None):
     s = SList(None, z3.simplify(n) if not isinstance(n, int) else z3.IntVal(n), label)
     s.fn = fn
+    s.enum = enum
     it.p.alloc.append(s)
     return s
 
 
+def enum_of(x):
+    if isinstance(x, SList):
+        return getattr(x, 'enum', None)
+    if isinstance(x, (list, tuple)):
+        for e in x:
+            if isinstance(e, (EnumVal, EnumSym)):
+                return e.cls
+    if isinstance(x, (EnumVal, EnumSym)):
+        return x.cls
+    return None
+
+
 def from_concrete(it, lst):
     items = [code(x) for x in lst]
+    en = enum_of(lst)
 
     def fn(i):
         r = z3.IntVal(0)
         for k in range(len(items) - 1, -1, -1):
             r = z3.If(i == k, items[k], r)
         return z3.simplify(r)
-    return new(it, len(items), fn)
+    return new(it, len(items), fn, enum=en)
 
 
 def as_slist(it, x):
@@ -67,7 +90,7 @@ def binop(it, op, a, b):
     if op == 'Add':
         a, b = as_slist(it, a), as_slist(it, b)
         fa, fb, na = a.fn, b.fn, a.n
-        return new(it, a.n + b.n, lambda i: z3.If(i < na, fa(i), fb(i - na)))
+        return new(it, a.n + b.n, lambda i: z3.If(i < na, fa(i), fb(i - na)), enum=enum_of(a) or enum_of(b))
     if op == 'Mult':
         lst, k = (a, b) if isinstance(a, (SList, list)) else (b, a)
         k = term(k)
@@ -75,7 +98,7 @@ def binop(it, op, a, b):
             if len(lst) != 1:
                 raise Unsupported('list * symbolic count with more than one element')
             c = code(lst[0])
-            return new(it, imax0(k), lambda i: c)
+            return new(it, imax0(k), lambda i: c, enum=enum_of(lst))
         raise Unsupported('symbolic list * count')
     raise Unsupported(f'list operator {op}')
 
@@ -91,7 +114,7 @@ def srange_list(it, r):
 
 def copy(it, s):
     f = s.fn
-    return new(it, s.n, lambda i: f(i))
+    return new(it, s.n, lambda i: f(i), enum=enum_of(s))
 
 
 def norm_index(it, s, i):
@@ -114,7 +137,7 @@ def getitem(it, s, i):
     if isinstance(i, slice):
         return getslice(it, s, ('slice', i.start, i.stop, i.step))
     j = norm_index(it, s, i)
-    return mk(s.fn(j))
+    return elem(s, s.fn(j))
 
 
 def clamp_bounds(s, lo, hi):
@@ -140,7 +163,7 @@ def getslice(it, s, sl):
         raise Unsupported('list slice with step')
     l, h = clamp_bounds(s, lo, hi)
     f = s.fn
-    return new(it, imax0(h - l), lambda i: f(i + l))
+    return new(it, imax0(h - l), lambda i: f(i + l), enum=enum_of(s))
 
 
 def setitem(it, s, key, v):
@@ -169,8 +192,8 @@ def list_eq(it, a, b):
     p = it.p
     a, b = as_slist(it, a), as_slist(it, b)
     fa, fb, na, nb = a.fn, b.fn, a.n, b.n
-    e = fresh('leq', z3.BoolSort())
-    w = fresh('w', I)
+    e = p.fresh_def('leq', z3.BoolSort())
+    w = p.fresh_def('w', I)
     p.note_idx(w)
     p.assume(z3.Implies(e, na == nb))
     p.assume(Forall(0, SV(na), lambda i: mk(z3.Implies(e, fa(i.t) == fb(i.t)))))
@@ -190,8 +213,8 @@ def contains(it, s, x):
     p = it.p
     c = code(x)
     f, n = s.fn, s.n
-    e = fresh('lin', z3.BoolSort())
-    w = fresh('w', I)
+    e = p.fresh_def('lin', z3.BoolSort())
+    w = p.fresh_def('w', I)
     p.note_idx(w)
     p.assume(z3.Implies(e, z3.And(0 <= w, w < n, f(w) == c)))
     p.assume(Forall(0, SV(n), lambda i: mk(z3.Implies(z3.Not(e), f(i.t) != c))))
@@ -206,7 +229,7 @@ def index_of(it, s, x):
     found = contains(it, s, x)
     if not p.truth(found):
         raise p.pyexc('ValueError')
-    r = fresh('idx', I)
+    r = p.fresh_def('idx', I)
     p.note_idx(r)
     p.assume(z3.And(0 <= r, r < n, f(r) == c))
     p.assume(Forall(0, SV(r), lambda i: mk(f(i.t) != c)))
@@ -243,8 +266,8 @@ class FiltList:
     def nonempty(self, it):
         if self._nonempty is None:
             p = it.p
-            e = fresh('cand', z3.BoolSort())
-            w = fresh('w', I)
+            e = p.fresh_def('cand', z3.BoolSort())
+            w = p.fresh_def('w', I)
             p.note_idx(w)
             lo, hi = term(self.lo), term(self.hi)
             p.assume(z3.Implies(e, z3.And(lo <= w, w < hi, boolterm(self.cond(SV(w))))))
@@ -258,7 +281,7 @@ class FiltList:
             raise p.pyexc('IndexError')
         attr = '_first' if first else '_last'
         if getattr(self, attr) is None:
-            r = fresh('first' if first else 'last', I)
+            r = p.fresh_def('first' if first else 'last', I)
             p.note_idx(r)
             lo, hi = term(self.lo), term(self.hi)
             p.assume(z3.And(lo <= r, r < hi, boolterm(self.cond(SV(r)))))
